@@ -303,14 +303,20 @@ func (b *Bucket) DeleteBucket(key []byte) (err error) {
 
 	// Recursively delete all child buckets.
 	child := b.Bucket(newKey)
+	// Collect the names first: deleting while iterating shifts the inodes of
+	// an already materialized node under the cursor and skips children.
+	var childKeys [][]byte
 	err = child.ForEachBucket(func(k []byte) error {
-		if err := child.DeleteBucket(k); err != nil {
-			return fmt.Errorf("delete bucket: %s", err)
-		}
+		childKeys = append(childKeys, cloneBytes(k))
 		return nil
 	})
 	if err != nil {
 		return err
+	}
+	for _, k := range childKeys {
+		if err := child.DeleteBucket(k); err != nil {
+			return fmt.Errorf("delete bucket: %s", err)
+		}
 	}
 
 	// Remove cached copy.
